@@ -11,6 +11,9 @@ be *placed* inside them.  Without a tape the spelling is canonical and determini
 """
 
 
+from fractions import Fraction
+
+
 class Real:
     __slots__ = ("text",)
 
@@ -382,6 +385,13 @@ class Ser:
             self.raw(v.b, regular_end=True)
         elif isinstance(v, float):
             self.real(Real(fmt_float(v)))
+        elif isinstance(v, Fraction):
+            if v.denominator == 1:
+                self.integer(v.numerator)
+            else:
+                txt = ("%.12f" % float(v)).rstrip("0")
+                assert Fraction(txt) == v, v
+                self.real(Real(txt))
         else:
             raise TypeError("cannot serialise %r" % (v,))
         return self
